@@ -40,6 +40,7 @@ PLAN = {
     # C40 = race-detector batch (C40) + cooperative-scheduler batch of the same programs (C40D)
     "C40": dict(quick=64, thorough=6000, timeout=180, race=True, gomaxprocs=4, workers=8,
                 extra=[("C40D", dict(quick=240, thorough=30000, timeout=300))]),
+    "C30": dict(quick=1600, thorough=200000, timeout=240),
     "C22": dict(quick=6000, thorough=300000, timeout=90),
     "C11": dict(quick=1500, thorough=60000, timeout=90),
     "C01": dict(quick=480, thorough=30000, timeout=180), "C02": dict(quick=480, thorough=30000, timeout=180),
@@ -337,8 +338,8 @@ def crash_class(log):
             msg = l.strip()[:160]
             for m in lines[i + 1:]:
                 m = m.strip()
-                if m.startswith("github.com/pion/") and "(" in m:
-                    frame = m.split("(")[0]
+                if m.startswith("github.com/pion/") and m.endswith(")"):
+                    frame = m.rsplit("(", 1)[0].replace("github.com/pion/webrtc/v4.", "").replace("github.com/pion/", "")
                     break
             break
         if "WARNING: DATA RACE" in l:
